@@ -67,14 +67,14 @@ Proof. intros x y (c & r & -> & H). simpl. apply expr_head_sp. exact H. Qed.
 (* ---- the shape of a numeric literal ---- *)
 Lemma strip_shape : forall l ng body, strip l = (ng, body) -> l = (if ng then [45] else []) ++ body.
 Proof.
-  intros [| x r] ng body H; simpl in H.
+  intros [| x r] ng body H; unfold strip in H.
   - inversion H; subst. reflexivity.
   - destruct (N.eqb_spec x 45) as [-> | Hx]; inversion H; subst; reflexivity.
 Qed.
 
 Lemma strip_no_minus : forall b, starts_not (N.eqb 45) b -> strip b = (false, b).
 Proof.
-  intros [| x r] H; [reflexivity |]. simpl in H. unfold strip. rewrite N.eqb_sym, H. reflexivity.
+  intros [| x r] H; [reflexivity |]. unfold starts_not in H. unfold strip. rewrite N.eqb_sym, H. reflexivity.
 Qed.
 
 Lemma Groups_shape : forall l gs r2, Groups l gs r2 -> exists g, l = g ++ r2 /\ all is_decimal_char g.
@@ -151,12 +151,22 @@ Proof.
   eexists. split; [exact Hs |]. exact Hf.
 Qed.
 
-Lemma doc_decimal_head : forall l, doc_decimal l -> head_in is_expr_head l.
+Definition is_lit_head (c : N) : bool := is_decimal_char c || (c =? 45).
+
+Lemma doc_decimal_head : forall l, doc_decimal l -> head_in is_lit_head l.
 Proof.
   intros l H. destruct (doc_decimal_shape l H) as (body & [-> | ->] & (c & r & -> & Hc) & _).
-  - exists c, r. split; [reflexivity |]. unfold is_expr_head. rewrite Hc. reflexivity.
+  - exists c, r. split; [reflexivity |]. unfold is_lit_head. rewrite Hc. reflexivity.
   - exists 45, (c :: r). split; reflexivity.
 Qed.
+
+Lemma head_in_impl : forall (f g : N -> bool) x, (forall c, f c = true -> g c = true) -> head_in f x -> head_in g x.
+Proof. intros f g x H (c & r & -> & Hc). exists c, r. split; [reflexivity | auto]. Qed.
+
+Lemma lit_head_expr : forall c, is_lit_head c = true -> is_expr_head c = true.
+Proof. intros c H. unfold is_expr_head. fold (is_lit_head c). rewrite H. reflexivity. Qed.
+Lemma lit_head_not_paren : forall c, is_lit_head c = true -> (c =? 40) = false.
+Proof. intros c H. unfold is_lit_head, is_decimal_char, Comb.is_digit in H. lia. Qed.
 
 (* ---- the number token ---- *)
 Lemma decimal_token_lit : forall l y, doc_decimal l -> starts_not is_decimal_char y ->
@@ -216,18 +226,22 @@ Proof.
     eexists _, _. split; [reflexivity |]. left. reflexivity.
 Qed.
 
-Lemma doc_amount_head : forall x, doc_amount x -> head_in is_expr_head x.
+Lemma doc_amount_lit_head : forall x, doc_amount x -> head_in is_lit_head x.
 Proof. intros x [l s c Hl _ _]. apply head_in_app. apply doc_decimal_head. exact Hl. Qed.
+Lemma doc_amount_head : forall x, doc_amount x -> head_in is_expr_head x.
+Proof. intros x H. exact (head_in_impl _ _ x lit_head_expr (doc_amount_lit_head x H)). Qed.
 
 (* a value expression that starts with a minus sign is a negative literal: without the sign
    it is an amount-expr again *)
 Lemma neg_amount : forall d x', doc_value_expr d (45 :: x') -> doc_amount x'.
 Proof.
-  intros d x' H. inversion H as [d0 x0 Ha | d0 s1 x0 s2 H1 H2 H3]; subst.
-  destruct Ha as [l s c Hl Hs Hc]. rename H1 into E.
+  intros d x' H. remember (45 :: x') as x eqn:E.
+  destruct H as [d x Ha | d s1 x0 s2 H1 H2 H3]; [| discriminate].
+  destruct Ha as [l s c Hl Hs Hc].
   destruct (doc_decimal_shape l Hl) as (body & [-> | ->] & (c0 & b' & -> & Hc0) & _ & Hb).
   - cbn [app] in E. inversion E; subst. discriminate.
-  - cbn [app] in E. inversion E; subst. constructor; assumption.
+  - cbn [app] in E. inversion E; subst. change (c0 :: b' ++ s ++ c) with ((c0 :: b') ++ s ++ c).
+    constructor; assumption.
 Qed.
 
 (* ---- continuations ---- *)
@@ -330,12 +344,8 @@ Lemma V_amount_doc : forall d x, doc_amount x -> Vd d x.
 Proof.
   intros d x H D k HD G L. destruct (amount_doc x k H G) as (a & r & E & R).
   exists (SAmount a), r. split; [| exact R].
-  destruct (doc_amount_head x H) as (c & x' & -> & Hc). cbn [app] in *.
-  assert (H40 : (c =? 40) = false).
-  { destruct H as [l s c1 Hl _ _].
-    destruct (doc_decimal_shape l Hl) as (body & El & (c0 & b' & -> & Hc0) & _).
-    apply decimal_cases in Hc0.
-    destruct El as [-> | ->]; cbn [app] in *; match goal with E : _ :: _ = _ :: _ |- _ => inversion E; subst end; lia. }
+  destruct (doc_amount_lit_head x H) as (c & x' & -> & Hc). cbn [app] in *.
+  pose proof (lit_head_not_paren c Hc) as H40.
   rewrite (VE_amount fuel D c (x' ++ k) H40). apply pmap_ok. exact E.
 Qed.
 
@@ -360,14 +370,9 @@ Proof.
 Qed.
 
 (* unary-expr *)
-Lemma U_pos_doc : forall d x, doc_value_expr d x -> Vd d x -> Ud d x.
+Lemma U_pos_doc : forall d x, doc_value_expr d x -> Vd d x -> head_in is_expr_head x -> Ud d x.
 Proof.
-  intros d x H Hv D k HD G L.
-  destruct x as [| c x'].
-  { destruct (Hv D k HD G L) as (v & r & E & R). unfold VE in E. cbn [app] in E.
-    destruct D; destruct k; discriminate || (simpl in E; idtac). all: try discriminate.
-    all: exfalso; inversion H as [d0 x0 Ha | d0 s1 x0 s2 H1 H2 H3]; subst;
-      destruct (doc_amount_head [] Ha) as (c & r0 & E0 & _); discriminate. }
+  intros d x H Hv (c & x' & -> & _) D k HD G L.
   destruct (N.eqb_spec c 45) as [-> | Hc].
   - (* a negative literal: the parser reads the sign as a negation *)
     pose proof (neg_amount d x' H) as Ha.
@@ -394,7 +399,7 @@ Proof.
 Qed.
 
 (* one more operand of a chain *)
-Lemma chain_more : forall (opp : parser s_binop) (p : nat -> parser s_expr) d x s1 op s2 y n o,
+Lemma chain_more : forall (opp : parser s_binop) (p : nat -> parser s_expr) x s1 op s2 y n o,
   (forall rest, opp (op :: rest) = POk o rest) -> stop_start (op :: s2 ++ y) ->
   sps0 s1 -> sps0 s2 -> head_in is_expr_head y ->
   forall D k f e1 r1 b r,
@@ -405,7 +410,7 @@ Lemma chain_more : forall (opp : parser s_binop) (p : nat -> parser s_expr) d x 
     separated_foldl1 (f + S n) (p D) (sep opp) mk ((x ++ s1 ++ [op] ++ s2 ++ y) ++ k)
       = foldl1_loop f (p D) (sep opp) mk (SBinary o e1 b) r.
 Proof.
-  intros opp p d x s1 op s2 y n o Hop Hst H1 H2 Hy D k f e1 r1 b r E1 R1 Eb.
+  intros opp p x s1 op s2 y n o Hop Hst H1 H2 Hy D k f e1 r1 b r E1 R1 Eb.
   rewrite <- !app_assoc. replace (f + S n)%nat with (S f + n)%nat by lia. rewrite E1.
   assert (Sk : skip_sp (s1 ++ [op] ++ s2 ++ y ++ k) = op :: s2 ++ y ++ k).
   { cbn [app]. apply skip_sp_all; [exact H1 |]. simpl. apply Hst. }
